@@ -127,6 +127,7 @@ def execute(beh, R, variant=0, rnd=None, cache=None, probe=True, want_obj=False)
     steps = []
     nsteps = len(beh)
     start = 0
+    maps_in_use = {}      # a caller that extends repeatedly with the same identity map passes the same dict object again
     sigs = _sigs(beh) if cache is not None else None
     if cache is not None:
         for n in range(nsteps - 1, 0, -1):
@@ -160,6 +161,11 @@ def execute(beh, R, variant=0, rnd=None, cache=None, probe=True, want_obj=False)
                     sim = {int(j): key_index(atoms, R, key) for j, key in rec["map"]}
                     if R.name not in ("identity", "tests"):
                         sim = {np.int64(j): np.int64(i) for j, i in sim.items()}     # indices often come out of numpy
+                    mkey = json.dumps(sorted([int(j), int(i)] for j, i in sim.items()))
+                    if mkey in maps_in_use:
+                        sim = maps_in_use[mkey]           # the same object as in the earlier call (whatever became of it)
+                    elif sim:
+                        maps_in_use[mkey] = sim
                     if st["mode"] == "held":
                         offs = held[st["frag"]]
                         rec["offs"] = [int(x) for x in offs]
@@ -394,6 +400,21 @@ def random_walks(nwalks, depth, maxatoms, sd):
     if ("F3r", 3) in inst:
         walks.append([{"op": "Construct", "k": 0, "frag": "F3r", "other": inst[("F3r", 0)]["K"]}] +
                      [{"op": "Extend", "k": k, "frag": "F3r", "mode": "auto", "map": [], "other": inst[("F3r", k)]["K"]} for k in (1, 2, 3)])
+    # repeated extension with the same fragment and the same identity map (the caller passes the same dict again; see
+    # maps_in_use in execute), with held offsets and with automatic type merging
+    rr = random.Random(sd + 11)
+    pairs = [(a, b) for a in frags for b in frags if a != "E" and b != "E" and len(inst[(b, 0)]["K"]["q"]) >= 2
+             and (inst[(a, 0)]["flav"] == inst[(b, 0)]["flav"] or "n" in (inst[(a, 0)]["flav"], inst[(b, 0)]["flav"]))]
+    for a, b in rr.sample(pairs, min(len(pairs), 12)):
+        if (b, 2) not in inst:
+            continue
+        K0 = inst[(a, 0)]["K"]
+        j = rr.randrange(len(inst[(b, 0)]["K"]["q"]))
+        mp = [[j, [K0["q"][0], K0["pos"][0]]]]
+        first = [{"op": "Construct", "k": 0, "frag": a, "other": K0}]
+        walks.append(first + [{"op": "Extend", "k": k, "frag": b, "mode": "auto", "map": mp, "other": inst[(b, k)]["K"]} for k in (1, 2)])
+        walks.append(first + [{"op": "ExtendTypes", "k": 1, "frag": b, "other": inst[(b, 1)]["K"]}] +
+                     [{"op": "Extend", "k": k, "frag": b, "mode": "held", "map": mp, "other": inst[(b, k)]["K"]} for k in (1, 2)])
     for w in range(nwalks):
         rnd = random.Random(sd * 7919 + w)
         f0 = rnd.choice([f for f in frags if f != "E"])
